@@ -794,10 +794,198 @@ def random_item(rng):
     return en('E', vs, attrs, g)
 
 
+def s2_random2(seed, n):
+    rng = random.Random('r2/%d' % seed)
+    for k in range(n):
+        yield 'rand2/%d/%d' % (seed, k), random_item2(rng)
+
+
+GROUP_MEMBERS = {'Debug': {'Debug'}, 'EqHashOrd': {'Eq', 'Hash', 'Ord', 'PartialEq', 'PartialOrd'}, 'Hash': {'Hash'}, 'Zeroize': {'Zeroize', 'ZeroizeOnDrop'}}
+
+
+def random_item2(rng):
+    """second random stream: option orders and splits, skip_inner with groups over field-level skips, unions, zeroize traits and
+    options, raw / temporary-like names, denser discriminants, permuted bound lists; about one item in seven is mutated into an
+    (probably) invalid one"""
+    pnames = ['T', 'U', 'V'][:rng.choice([1, 2, 2, 3])]
+    params = [tparam(p, rng.choice([[], [], [], ['Tr'], ["'static"]]), rng.choice([[], [], [], ['u8']]) if (p != 'T' and p == pnames[-1]) else []) for p in pnames]
+    if rng.random() < 0.2:
+        params = [('Lt', 'a', [])] + params
+    if rng.random() < 0.15:
+        params.append(('Const', 'N', ['usize'], rng.choice([[], ['3']])))
+        if not params[-1][3]:       # a parameter without default after one with a default is not valid Rust
+            params = [('Ty', q[1], q[2], []) if q[0] == 'Ty' else q for q in params]
+    where = None
+    if rng.random() < 0.25:
+        where = ([[rng.choice(pnames), ':', rng.choice(['Copy', 'Tr', 'Tr2'])] for _ in range(rng.choice([1, 2]))], rng.random() < 0.5)
+    g = generics(params, where, rng.random() < 0.1)
+    kind = rng.choice(['struct', 'tuple', 'enum', 'enum', 'enum', 'enum', 'union'])
+    zer = rng.random() < 0.25
+    pool = STD9 + (['Zeroize', 'ZeroizeOnDrop'] if zer else [])
+    if kind == 'union':
+        ts = rng.choice([['Clone'], ['Clone', 'Copy'], ['Copy', 'Clone'], ['Clone', 'Debug']])
+    else:
+        ts = rng.sample(pool, min(rng.choice([1, 2, 3, 4, 5, len(pool)]), len(pool)))
+        for t, sups in (('Eq', ['PartialEq']), ('Ord', ['PartialOrd', 'Eq', 'PartialEq']), ('Copy', ['Clone']), ('PartialOrd', ['PartialEq'])):
+            if t in ts and rng.random() < 0.9:
+                ts += [x for x in sups if x not in ts]
+        rng.shuffle(ts)
+    derived = set(ts)
+    # bound lists: the same list, a permutation, or something else per attribute
+    entries = [pnames[0], pnames[-1], ('Pred', [pnames[0], ':', 'Tr']), ('Pred', [pnames[-1], ':', 'Tr2']), ('Ty', ['Vec', '<', pnames[0], '>']), ('Ty', ['[', pnames[-1], ';', '2', ']'])]
+    base = rng.sample(entries, rng.choice([0, 0, 1, 1, 2, 3]))
+
+    def some_list():
+        r = rng.random()
+        if r < 0.45:
+            return list(base) or None
+        if r < 0.6:
+            l = list(base)
+            rng.shuffle(l)
+            return l or None
+        if r < 0.7 and base:
+            return base + [base[0]]
+        return rng.sample(entries, rng.choice([0, 1, 2])) or None
+
+    nattr = rng.choice([1, 1, 1, 2, 2, 3])
+    parts = [[] for _ in range(nattr)]
+    for t in ts:
+        parts[rng.randrange(nattr)].append(t)
+
+    def tmeta(t):
+        if t in ('Zeroize', 'ZeroizeOnDrop') and rng.random() < 0.2:
+            return ('L', P(t), [('NV', P('crate'), ('EPath', (rng.random() < 0.5, ['zz'])))], None)
+        return t
+    attrs = [dw([tmeta(t) for t in p], some_list()) for p in parts if p]
+    groups_ok = [gn for gn, mem in GROUP_MEMBERS.items() if derived & mem]
+    any_skippable = bool(derived & set(SKIPPABLE + ['Zeroize', 'ZeroizeOnDrop']))
+
+    def rand_skip(name, exclude=()):
+        if not any_skippable or rng.random() < 0.55:
+            return None
+        cand = [x for x in groups_ok if x not in exclude]
+        if rng.random() < 0.3 or not cand:
+            return skip_meta(name) if not exclude else None
+        return skip_meta(name, rng.sample(cand, rng.randint(1, min(2, len(cand)))))
+
+    FNAMES = ['a', 'b', 'r#type', '__field_a', '__other', 'c', '__state', 'r#fn']
+
+    def rand_fields(shape, parent_groups):
+        n = rng.choice([0, 1, 1, 2, 2, 3, 4]) if shape != 'Unit' else 0
+        names = rng.sample(FNAMES, n) if shape == 'Named' else [None] * n
+        out = []
+        for i in range(n):
+            fa = []
+            sk = None if parent_groups == 'all' else rand_skip('skip', parent_groups)
+            metas = [sk] if sk else []
+            if 'Zeroize' in derived and rng.random() < 0.3:
+                metas.append(('L', P('Zeroize'), [mpath('fqs')], None))
+            rng.shuffle(metas)
+            if metas and rng.random() < 0.3 and len(metas) > 1:
+                fa = [sub(m) for m in metas]
+            elif metas:
+                fa = [sub(*metas)]
+            if rng.random() < 0.1:
+                fa.insert(rng.randrange(len(fa) + 1), ('Other', P('doc'), ['=', '"f"']))
+            out.append(field(names[i], rng.choice(TYPES), fa))
+        return out
+
+    def parent_groups_of(m):
+        if m is None:
+            return ()
+        return 'all' if m[0] == 'P' else tuple(x[1][1][0] for x in m[2])
+
+    can_inc = bool(derived & {'PartialEq', 'PartialOrd'}) and not (derived & {'Eq', 'Ord'})
+    if kind == 'union':
+        it = un('Un', [field(nm, rng.choice([['T'], ['u8'], PH]), []) for nm in rng.sample(['a', 'b', 'c'], rng.choice([1, 2]))], attrs, g)
+    elif kind in ('struct', 'tuple'):
+        shape = 'Named' if kind == 'struct' else 'Unnamed'
+        inner = rand_skip('skip_inner')
+        fs = rand_fields(shape, parent_groups_of(inner))
+        while not fs:
+            fs = rand_fields(shape, parent_groups_of(inner))
+        extra = []
+        if inner:
+            extra.append(dw([inner]))
+        if can_inc and rng.random() < 0.15:
+            extra.append(dw(['incomparable']))
+        for e in extra:
+            attrs.insert(rng.randrange(len(attrs) + 1), e)
+        it = st(rng.choice(['S', 'S', 'r#type']), fs, attrs, shape, g)
+    else:
+        nv = rng.choice([1, 2, 3, 3, 4, 5, 6])
+        reprs = rng.choice([None, None, None, ['C'], [rng.choice(REPRS)], ['C', rng.choice(REPRS)], [rng.choice(REPRS), 'C']])
+        has_int = reprs is not None and any(r in REPRS for r in reprs)
+        unsigned = has_int and any(r.startswith('u') for r in reprs)
+        dpos = rng.randrange(nv)
+        vals, cur, used = [], None, set()
+        for i in range(nv):
+            if rng.random() < 0.35:
+                base_v = (cur if cur is not None else 0) + rng.choice([-3, -2, 2, 3, 1, 5]) if rng.random() < 0.7 else rng.randint(0 if unsigned else -9, 40)
+                if unsigned:
+                    base_v = abs(base_v)
+                while base_v in used:
+                    base_v += 1
+                cur, expl = base_v, True
+            else:
+                cur, expl = (0 if cur is None else cur + 1), False
+                while cur in used:          # would be a duplicate discriminant in Rust: make it explicit elsewhere
+                    cur, expl = cur + 1, True
+            used.add(cur)
+            vals.append((cur, expl))
+        VN = ['A', 'B', 'r#type', 'Cc', 'cC', 'D', 'r#fn', 'E_']
+        names = rng.sample(VN, nv)
+        vs = []
+        for i in range(nv):
+            shape = rng.choice(['Unit', 'Unnamed', 'Named', 'Unnamed', 'Named'])
+            inner = rand_skip('skip_inner') if shape != 'Unit' else None
+            fs = rand_fields(shape, parent_groups_of(inner))
+            if not fs:
+                inner = None
+            metas = []
+            if 'Default' in derived and i == dpos:
+                metas.append(mpath('default'))
+            if can_inc and rng.random() < 0.25:
+                metas.append(mpath('incomparable'))
+            if inner:
+                metas.append(inner)
+            rng.shuffle(metas)
+            if len(metas) > 1 and rng.random() < 0.4:
+                va = [sub(m) for m in metas]
+            else:
+                va = [sub(*metas)] if metas else []
+            v, expl = vals[i]
+            disc = (([str(v)] if v >= 0 else ['-', str(-v)]), v) if expl else None
+            vs.append(variant(names[i], shape, fs, va, disc))
+        fieldless = all(not v['fields'] for v in vs)
+        if not has_int and not (fieldless and all(v['shape'] == 'Unit' for v in vs)):
+            for v in vs:
+                v['disc'] = None
+        if reprs:
+            attrs.insert(rng.randrange(len(attrs) + 1), repr_attr(*reprs))
+        it = en('E', vs, attrs, g)
+    # mutate into a (probably) invalid item
+    if rng.random() < 0.15:
+        m = rng.choice(['dup_attr', 'unknown_option', 'empty_attr', 'drop_partial', 'inc_total', 'skip_group'])
+        if m == 'dup_attr' and it['attrs']:
+            it['attrs'].append(rng.choice(it['attrs']))
+        elif m == 'unknown_option':
+            it['attrs'].append(dw([rng.choice(['skip', 'default', 'bogus', 'incomparable'])]))
+        elif m == 'empty_attr':
+            it['attrs'].insert(rng.randrange(len(it['attrs']) + 1), ('Dw', ('List', [], None, {})))
+        elif m == 'inc_total' and kind == 'enum':
+            it['kind'][1][0]['attrs'].append(sub('incomparable'))
+        elif m == 'skip_group':
+            fs = [f for v in (it['kind'][1] if kind == 'enum' else [dict(fields=it['kind'][2] if kind != 'union' else it['kind'][1])]) for f in v['fields']]
+            if fs:
+                rng.choice(fs)['attrs'].append(sub(skip_meta('skip', [rng.choice(['Debug', 'EqHashOrd', 'Hash', 'Zeroize', 'Clone'])])))
+    return it
+
+
 def quick_corpus(seed):
     out = []
     seen = set()
-    for cid, it in itertools.chain(s1_all(), s3_invalid(), s2_random(seed, 300)):
+    for cid, it in itertools.chain(s1_all(), s3_invalid(), s2_random(seed, 300), s2_random2(seed, 900)):
         if cid in seen:
             raise RuntimeError('duplicate case id ' + cid)
         seen.add(cid)
